@@ -90,6 +90,13 @@ def bounds_tasks(tier):
         for fam in fams:
             for (f, c) in split(n, parts):
                 tasks.append(dict(engine="bounds", variant="plain", args=["--prop", "C08", "--what", what, "--fam", fam, "--from", f, "--count", c]))
+    # valgrind memcheck over exact-size heap blocks (sees in-page over-reads that guard pages cannot); families up to AVX2 only
+    VG = ["valgrind", "-q", "--error-exitcode=0"]
+    vplan = [("gcm", ["sse", "avx_gen2", "avx_gen4"]), ("gcmstream", ["sse", "avx_gen2", "avx_gen4"]), ("xts", ["sse", "avx"]), ("cbc", ["sse", "avx"]), ("mh", ["base", "sse", "avx", "avx2"]), ("rolling", ["base", "00", "04"])]
+    vn = 40 if tier == "quick" else 1500
+    for what, fams in vplan:
+        for fam in (fams[:1] if tier == "quick" else fams):
+            tasks.append(dict(engine="bounds", variant="plain", wrap=VG, timeout=3000, args=["--prop", "C08", "--what", what, "--fam", fam, "--heap", 1, "--from", 0, "--count", vn, "--watchdog", 2900]))
     hn = 400 if tier == "quick" else 8000
     for alg in HASH_ALGS:
         tasks.append(dict(engine="hashmb", variant="plain", args=["--prop", "C08", "--alg", alg, "--route", "fam,isal,legacy", "--inject", 5, "--guard", 1, "--from", 0, "--count", hn]))
@@ -478,9 +485,11 @@ CHECKS = {
               "(v) the upper halves of registers carrying 32-bit arguments. Observables hashed and compared: return values, returned-context identities, status/error fields, "
               "digests, tags, output bytes, offsets/matches and everything observable in the rest of the scenario. Scenarios: trampoline scenarios of C19 (all groups, all families, "
               "four routes) plus hashmb histories (all 28 hash families x 3 routes) run under 0x00 / 0xff / random junk in manager and context memory"),
-        assumptions=TRUST + ["a dependence on hidden state that happens not to change any observable for the three patterns is missed",
+        assumptions=TRUST + ["a dependence on hidden state that happens not to change any observable for the three patterns is missed (valgrind memcheck's uninitialised-value tracking over the base/sse/avx/avx2 hash families, with manager and context memory marked undefined before the API initialises it, covers part of that gap)",
                              "internal assembly entries receive zero-extended 32-bit arguments, as the library's own compiled C passes them"],
-        tasks=lambda tier: tramp_tasks("C20", "hidden", TRAMP_GROUPS, 120, 4000)(tier) + hash_tasks("C20", 300, 20000, 6, extra=["--pair", 1], parts_q=1, parts_t=3)(tier),
+        tasks=lambda tier: tramp_tasks("C20", "hidden", TRAMP_GROUPS, 120, 4000)(tier) + hash_tasks("C20", 300, 20000, 6, extra=["--pair", 1], parts_q=1, parts_t=3)(tier)
+        + [dict(engine="hashmb", variant="plain", wrap=["valgrind", "-q", "--error-exitcode=0"], timeout=3000,
+                args=["--prop", "C20", "--alg", alg, "--fam", "base,sse,avx,avx2", "--route", "fam,isal", "--uninit", 1, "--inject", 0, "--from", 0, "--count", 15 if tier == "quick" else 600, "--watchdog", 2900]) for alg in HASH_ALGS],
     ),
     "C15": dict(
         level="exploration", evaluations=["big_handbacks", "completes"], must_observe=["big_jobs_completed", "big_jobs_2^29", "big_jobs_2^32", "big_handbacks", "big_single_submits_ge_2^31", "big_zero_length_updates"],
